@@ -14,7 +14,7 @@ let show_case (t : ptest) : string =
     (hex_of_text (List.concat (List.mapi (fun i l -> if i = 0 then l else n_of_int 10 :: l) t.pt_cmd)))
     (if t.pt_exps = [] then "_" else String.concat "+" (List.map hex_of_text t.pt_exps))
     (match t.pt_code with None -> "-" | Some c -> string_of_int (int_of_n c)) (int_of_nat t.pt_line) (Lazy.force cram_cfg)
-let show_res = function LErr -> "err" | LOk [] -> "ok:-" | LOk l -> "ok:" ^ String.concat "," (List.map show_case l)
+let show_res = function LErr -> "err" | LOk [] -> "ok:-" | LOk l -> "ok:" ^ String.concat "&" (List.map show_case l)
 
 let parse_ast (s : string) : block list =
   if s = "-" then [] else
@@ -53,5 +53,151 @@ let run_cram () = iter_lines (fun line ->
         let expect = show_res (LOk (cram_tests_of d)) in
         if expect <> res then report "SPEC:C07" ("the tests returned are not the ones written in the document: expected " ^ expect) line
       end else bump "grammar:not-wf(skipped)"
+    end
+  | _ -> report "BAD" "unparsable case line" line)
+
+(* ---------------------------------------------------------------- C06: Markdown *)
+let cfg_table = [| "timeout: 3s"; "output_stream: stderr"; "keep_crlf: true, skip_document_code: 7"; "environment: {FOO: bar}" |]
+let cfg_meaning = [| "os=- kc=- to=3000 de=- sk=- sa=- wa=- env=-"; "os=1 kc=- to=- de=- sk=- sa=- wa=- env=-";
+                     "os=- kc=1 to=- de=- sk=7 sa=- wa=- env=-"; "os=- kc=- to=- de=- sk=- sa=- wa=- env=FOO:bar" |]
+let front_table = [| ["total_timeout: 5s"]; ["defaults:"; "  skip_document_code: 9"]; ["defaults:"; "  keep_crlf: false"; "  environment:"; "    FOO: doc"; "    BAR: doc"] |]
+let front_meaning = [| "os=- kc=- to=- de=- sk=- sa=- wa=- env=-"; "os=- kc=- to=- de=- sk=9 sa=- wa=- env=-"; "os=- kc=0 to=- de=- sk=- sa=- wa=- env=BAR:doc,FOO:doc" |]
+let text_of_string s = List.map (fun c -> n_of_int (Char.code c)) (List.of_seq (String.to_seq s))
+let string_of_text t = String.concat "" (List.map (fun c -> let i = int_of_n c in if i < 128 then String.make 1 (Char.chr i) else "?") t)
+
+(* configurations with symbolic environment names: printed in the harness' notation *)
+let show_cfg_sym (inline : string option) (docd : string) : string =
+  (* precedence inline > document defaults > markdown default, on the textual fields *)
+  let parse s = List.map (fun kv -> match String.index_opt kv '=' with Some i -> (String.sub kv 0 i, String.sub kv (i + 1) (String.length kv - i - 1)) | None -> (kv, "")) (split_on ' ' s) in
+  let fmt = parse (D_config.show_tc tc_default_markdown) and d = parse docd and i = (match inline with Some s -> parse s | None -> []) in
+  let pick k = (let g l = (try let v = List.assoc k l in if v = "-" then None else Some v with Not_found -> None) in
+                match g i with Some v -> v | None -> (match g d with Some v -> v | None -> (match g fmt with Some v -> v | None -> "-"))) in
+  let env = (let g l = (try let v = List.assoc "env" l in if v = "-" then [] else List.map (fun kv -> match split_on ':' kv with [k; v] -> (k, v) | _ -> (kv, "")) (split_on ',' v) with Not_found -> []) in
+             let merged = List.fold_left (fun acc (k, v) -> (k, v) :: List.remove_assoc k acc) [] (g d @ g i) in
+             let sorted = List.sort compare merged in
+             if sorted = [] then "-" else String.concat "," (List.map (fun (k, v) -> k ^ ":" ^ v) sorted)) in
+  String.concat "~" (List.map (fun k -> k ^ "=" ^ (if k = "env" then env else pick k)) ["os"; "kc"; "to"; "de"; "sk"; "sa"; "wa"; "env"])
+
+let parse_md_ast (s : string) : elem list * int option =
+  if s = "-" then ([], None) else begin
+    let front = ref None in
+    let hl v = if v = "_" then [] else List.map text_of_hex (split_on ',' v) in
+    let d = List.map (fun e ->
+      let body = String.sub e 1 (String.length e - 1) in
+      match e.[0] with
+      | 'F' -> let i = int_of_string body in front := Some i; EFront (List.map text_of_string front_table.(i))
+      | 'P' -> EProse (text_of_hex body)
+      | 'H' -> EHeading (nat_of_int (Char.code body.[0] - 48), text_of_hex (String.sub body 1 (String.length body - 1)))
+      | 'B' -> EBlank
+      | 'V' -> (match split_on '/' (String.sub body 1 (String.length body - 1)) with
+          | [lang; b] -> EForeign (nat_of_int (Char.code body.[0] - 48), text_of_hex lang, hl b)
+          | _ -> failwith "foreign")
+      | 'S' ->
+        let n = Char.code body.[0] - 48 in
+        (match split_on '/' (String.sub body 1 (String.length body - 1)) with
+         | cfg :: comments :: rest ->
+           let cfg = if cfg = "-" then None else Some (text_of_string cfg_table.(int_of_string cfg)) in
+           let cmd = (match rest with
+               | ["~"] -> None
+               | [cmds; items] ->
+                 let cs = List.map text_of_hex (split_on ',' cmds) in
+                 let items = if items = "_" then [] else List.map (fun it ->
+                     let v = String.sub it 1 (String.length it - 1) in
+                     if it.[0] = 'E' then BExp (text_of_hex v) else BCode (text_of_string v)) (split_on ',' items) in
+                 Some ((List.hd cs, List.tl cs), items)
+               | _ -> failwith "scrut cmd") in
+           EScrut (nat_of_int n, cfg, hl comments, cmd)
+         | _ -> failwith "scrut")
+      | _ -> failwith "elem") (split_on ';' s) in
+    (d, !front)
+  end
+
+let show_mtest (docd : string) (t : mtest) : string =
+  let p = t.mt_test in
+  let inline = (match t.mt_cfg with None -> None | Some c ->
+      let s = string_of_text c in
+      (let r = ref None in Array.iteri (fun i x -> if x = s then r := Some cfg_meaning.(i)) cfg_table; !r)) in
+  Printf.sprintf "%s^%s^%s^%s^%d^%s" (hex_of_text p.pt_title)
+    (hex_of_text (List.concat (List.mapi (fun i l -> if i = 0 then l else n_of_int 10 :: l) p.pt_cmd)))
+    (if p.pt_exps = [] then "_" else String.concat "+" (List.map hex_of_text p.pt_exps))
+    (match p.pt_code with None -> "-" | Some c -> string_of_int (int_of_n c)) (int_of_nat p.pt_line) (show_cfg_sym inline docd)
+let show_mres docd = function LErr -> "err" | LOk [] -> "ok:-" | LOk l -> "ok:" ^ String.concat "&" (List.map (show_mtest docd) l)
+
+(* environment names in the implementation's answer are FOO/BAR: bring `K`-less names into the same notation *)
+let norm_impl (s : string) = s
+
+let run_md () = iter_lines (fun line ->
+  match split_on '|' (String.sub line 2 (String.length line - 2)) with
+  | [ast; doc; res] ->
+    let text = text_of_hex doc in
+    let lines = str_lines text in
+    let soup = (ast = "~") in
+    let trunc = (String.length ast > 0 && ast.[0] = '^') in
+    bump (if soup then "kind:soup" else if trunc then "kind:truncated" else "kind:grammar");
+    bump ("result:" ^ (if res = "err" then "err" else if res = "panic" then "panic" else "ok"));
+    note_distinct doc (List.length lines > 1); sample line;
+    if res = "panic" then report "SPEC:C06" "parsing a Markdown document panicked" line;
+    let known_cfg c = Array.exists (fun x -> x = string_of_text c) cfg_table in
+    let known_front ls = Array.exists (fun x -> List.map text_of_string x = ls) front_table in
+    if soup then begin
+      (* YAML acceptance is external: compare only when the model needs no YAML verdict it cannot give *)
+      let needs_yaml = List.exists (function TFront (_, _) -> true | TTest (Some _, _, _, _) -> true | _ -> false) (md_tokens lines) in
+      if needs_yaml then bump "soup:yaml-not-compared"
+      else begin
+        let m = show_mres (D_config.show_tc tempty) (parse_md pe_ok (fun _ -> true) (fun _ -> true) lines) in
+        if m <> norm_impl res then report "DIFF:markdown" ("model=" ^ m) line
+      end
+    end else begin
+      let k, ast' = if trunc then (match split_on '^' ast with [_; k; a] -> (Some (int_of_string k), a) | _ -> failwith "trunc") else (None, ast) in
+      let (d, fi) = parse_md_ast ast' in
+      let docd = (match fi with Some i -> front_meaning.(i) | None -> D_config.show_tc tempty) in
+      let full = render_md d in
+      let m = show_mres (if trunc && (match k with Some k -> k < 1 + (match fi with Some i -> List.length front_table.(i) + 1 | None -> 0) | None -> false) then D_config.show_tc tempty else docd)
+          (parse_md pe_ok known_front known_cfg lines) in
+      (match k with
+       | None ->
+         if full <> lines then report "BAD" "harness rendering differs from the specification's" line
+         else begin
+           let unknown_yaml = List.exists (function TFront (ls, _) -> not (known_front ls) | TTest (Some c, _, _, _) -> not (known_cfg c) | _ -> false) (md_tokens lines) in
+           if unknown_yaml then bump "grammar:yaml-not-compared"
+           else if m <> norm_impl res then report "DIFF:markdown" ("model=" ^ m) line;
+           if wf_md pe_ok known_front known_cfg d then begin
+             bump "grammar:wf";
+             let expect = show_mres docd (LOk (md_tests_of d)) in
+             if expect <> norm_impl res then report "SPEC:C06" ("the tests returned are not the ones written in the document: expected " ^ expect) line
+           end else bump "grammar:not-wf(skipped)"
+         end
+       | Some k ->
+         let pre = List.filteri (fun i _ -> i < k) full in
+         if pre <> lines then report "BAD" "harness truncation differs" line
+         else begin
+           (* a truncated document: an error, or at least the tests of every block that is complete *)
+           if wf_md pe_ok known_front known_cfg d && res <> "err" && res <> "panic" then begin
+             bump "truncated:wf";
+             let complete =
+               (let rec go els line acc = match els with
+                   | [] -> acc
+                   | e :: r -> let next = line + List.length (render_elem e) in
+                     if next <= k then go r next (acc @ [e]) else acc in go d 0 []) in
+             let want = List.map (show_mtest docd) (md_tests_of complete) in
+             let got = if res = "ok:-" then [] else split_on '&' (String.sub res 3 (String.length res - 3)) in
+             let strip_cfg s = (match String.rindex_opt s '^' with Some i -> String.sub s 0 i | None -> s) in
+             let rec is_prefix a b = match a, b with [], _ -> true | x :: a', y :: b' -> strip_cfg x = strip_cfg y && is_prefix a' b' | _, [] -> false in
+             if not (is_prefix want got) then report "SPEC:C06" "a truncated document silently loses a test of a complete block" line;
+             if List.length got > List.length want + 1 then report "SPEC:C06" "a truncated document yields tests that are not in it" line;
+             (* the block the document ends in: once its `$` line is there, it is read to the end and yields its test *)
+             let cut = (let rec go els line = match els with
+                 | [] -> None
+                 | e :: r -> let next = line + List.length (render_elem e) in if next <= k then go r next else Some (e, line) in go d 0) in
+             (match cut with
+              | Some (EScrut (_, _, comments, Some _), start) when k >= start + 1 + List.length comments + 1 ->
+                if List.length got <> List.length want + 1 then
+                  report "SPEC:C06" "the document ends inside a scrut block (after its `$` line): the block is neither reported nor read to the end -- its test is silently dropped" line
+              | _ -> ())
+           end;
+           let unknown_yaml = List.exists (function TFront (ls, _) -> not (known_front ls) | TTest (Some c, _, _, _) -> not (known_cfg c) | _ -> false) (md_tokens lines) in
+           if unknown_yaml then bump "truncated:yaml-not-compared"
+           else if m <> norm_impl res then report "DIFF:markdown" ("model=" ^ m) line
+         end)
     end
   | _ -> report "BAD" "unparsable case line" line)
